@@ -7,6 +7,8 @@ CONSTANTS
   HClients = {"lighthouse", "teku", "nimbus", "prysm", "unknown"}
   HNodeCounts = {2, 3}
   HLens = {2, 3, 4}
-  HOutcomes = {"accept", "reject", "treject", "malformed", "slowok", "late", "hang", "heldok", "heldrej", "heldtrej"}
+  HOutcomes = {"accept", "reject", "treject", "malformed", "slowok", "late", "hang", "heldok", "heldrej", "heldtrej", "slowok1", "slowok3", "slowrej1", "slowrej2", "slowtrej1"}
+  HConfSets = {{1}, {2}, {1, 2}, {2, 3}, {1, 3}, {1, 2, 3}}
+  HVecOuts = {}
 INVARIANTS Emit
 CHECK_DEADLOCK FALSE
